@@ -198,7 +198,9 @@ func (f *Frame) appendToShortened(c *ssa.CallCommon, s, t Val, pos token.Pos) {
 		n := vc.callOrd["frame:backing-array"]
 		vc.callOrd["frame:backing-array"] = n + 1
 		label := fmt.Sprintf("frame[backing-array].an-append-to-a-shortened-slice-leaves-the-elements-the-caller-still-sees#%d", n)
-		vc.addObl(f, "frame", label, goal, "append to the slice shortened at "+relPos(vc.P, o.Pos())+" (a slice that existed at entry) does not overwrite a caller-visible element with a different value", pos)
+		fo := vc.addObl(f, "frame", label, goal, "append to the slice shortened at "+relPos(vc.P, o.Pos())+" (a slice that existed at entry) does not overwrite a caller-visible element with a different value", pos)
+		// like any undeclared write that reaches memory alive at entry: if it cannot be excluded, it is reported
+		fo.NotExcluded = true
 	}
 }
 
